@@ -29,6 +29,9 @@ def run(ctx):
     ctx.each(r06g, ctx, repo)
     ctx.each(r06h, ctx, repo)
     ctx.each(r06i, ctx, repo)
+    from . import c04
+
+    ctx.each(c04.r04e, ctx, repo)  # parameters at the first index are functions of the post-flush sizes
     ctx.each(flowalg.accumulator_rule, ctx, repo, "R06j", [("model", "Parameter.update")], 4, "the dependency sums of a parameter function")
 
 
